@@ -3,7 +3,7 @@
 
    The server cookie is a function of the client half (and of secret and address, fixed per
    writer): [srv] is that function, arbitrary.  Options are (code, payload). *)
-From Sdns Require Import Common.Base Gen.C05.
+From Sdns Require Import Common.Base Common.GoList Gen.C05.
 Open Scope N_scope.
 
 Inductive eopt := mk_eopt (code : N) (data : list N).
@@ -73,6 +73,30 @@ Section Edns.
     let stripped := filter (fun o => negb (eo_code o =? OPT_KEEPALIVE))
                            (filter (fun o => negb (eo_code o =? OPT_SUBNET)) merged) in
     Some (mk_optrec (ew_size w) (ew_do w) (stripped ++ keepalive_option w)).
+
+  (* ---- the bytes.  RFC 6891 wire form of the record: root owner, TYPE 41, CLASS = advertised size,
+     TTL = extended rcode 0 / version 0 / DO, RDLENGTH, then (code, length, payload) per option.
+     Lengths are written as the 16-bit values the code writes (uint16 conversion = wrap). *)
+  Definition encode_option (o : eopt) : list N :=
+    go_put_be16 (eo_code o) ++ go_put_be16 (Z_to_uw two16 (go_len (eo_data o))) ++ eo_data o.
+  Definition encode_options (os : list eopt) : list N := flat_map encode_option os.
+  Definition encode_opt (r : optrec) : list N :=
+    [0] ++ go_put_be16 41 ++ go_put_be16 (or_size r) ++ go_put_be32 (if or_do r then 32768 else 0)
+    ++ go_put_be16 (Z_to_uw two16 (go_len (encode_options (or_options r)))) ++ encode_options (or_options r).
+
+  (* the Extended DNS Error as WireInfo carries it (code, text) and as an option *)
+  Definition ede_eopt (e : N * list N) : eopt := mk_eopt OPT_EDE (go_put_be16 (fst e) ++ snd e).
+
+  (* edns.ResponseWriter.appendWireOPT, statement by statement, over the TRANSLATED builders of
+     internal/wire (Gen.C05: go_AppendOPTHeader, go_AppendOption, go_AppendOptionString,
+     go_AppendOptionEDE, go_FinishOPT): header, cookie, NSID, keepalive, EDE, RDLENGTH patched in *)
+  Definition append_wire_opt (w : ewriter) (ede : option (N * list N)) (body : list N) : list N :=
+    let '(body, rdlen_off) := go_AppendOPTHeader body (ew_size w) (ew_do w) in
+    let body := match ew_cookie w with Some c => go_AppendOption body OPT_COOKIE (srv c) | None => body end in
+    let body := match ew_nsid w with Some s => go_AppendOptionString body OPT_NSID s | None => body end in
+    let body := if ew_keepalive w then go_AppendOption body OPT_KEEPALIVE (go_put_be16 tcp_keepalive_units) else body in
+    let body := match ede with Some e => go_AppendOptionEDE body (fst e) (snd e) | None => body end in
+    go_FinishOPT body rdlen_off.
 
   (* CacheEntry.ToMsg: the entry's Extended DNS Error is put on a fresh OPT when the (normalised)
      request has one - it always has after SetEdns0 *)
